@@ -336,6 +336,7 @@ class EnforcerPool:
     def enforce(self, value: Any):
         """Enforce rules from all enforcers in the pool."""
 
+        self._errors = []
         for enforcer in self.enforcers:
             self._capture_error(enforcer, value)
 
@@ -351,6 +352,7 @@ class EnforcerPool:
     def _raise_errors(self):
         """Raise errors if any exist, aggregate if more than one."""
         if self._errors:
-            if len(self._errors) > 1:
-                raise AggregateValidationError(self.name, self._errors)
-            raise self._errors.pop()
+            errors, self._errors = self._errors, []
+            if len(errors) > 1:
+                raise AggregateValidationError(self.name, errors)
+            raise errors.pop()
